@@ -355,7 +355,12 @@ def planPostWF (size bs : Nat) (plan : List Chunk) : Option String :=
   let rootFlags := plan.map fun c => match c with | .parent _ r _ _ _ => r | .leaf _ _ r _ => r
   if rootFlags != (List.replicate (plan.length - 1) false ++ [true]) then some "root flag" else
   let parents := plan.filterMap fun c => match c with | .parent node _ _ _ _ => some node | _ => none
-  if parents != Spec.persistedPost size bs then some "parents are not the persisted nodes in post-order" else none
+  if parents != Spec.persistedPost size bs then some "parents are not the persisted nodes in post-order" else
+  -- "its left/right flags say which children follow": in the post-order plan of the whole blob every parent
+  -- has both of its subtrees in the plan (just before it)
+  if plan.any (fun c => match c with | .parent _ _ l r _ => !(l && r) | _ => false) then
+    some "a parent of the post-order plan does not flag both children"
+  else none
 
 /-- `plan size bs minLevel ranges` (pre-order partial), `rplan size bs ranges` (response),
 `pplan size bs` (post-order) -/
